@@ -17,6 +17,18 @@ CLAIMED = {
         "termination is bounded by a watchdog (60 s, re-run at 600 s).",
         "Hypothesis grammar + soup + fault injection; crash/termination oracle with call-site bucketing",
     ),
+    "C04": (
+        "Every wrapper shape (block quote, bullet / ordered list, div, and 72 directive layouts: 2 names x backtick / colon "
+        "fence x 3 option styles x 0-2 blank lines before the body x 0-1 before the closing fence) to depth 2 (thorough: 3) "
+        "around every marked leaf kind (exhaustive), Hypothesis trees to depth 5, and include of generated files (with "
+        "start-line / start-after); ground truth by construction (the serializer records the first line of every "
+        "construct); oracle on the pre-transform doctree: node.line of the marked node, the lines of its chain of "
+        "container ancestors, the '<source>:<line>:' prefix and system_message line of every MyST warning, source path "
+        "and file-relative lines inside includes; bounded search.",
+        "Warning-producing inline constructs sit in one-line paragraphs; docutils-made nodes and table rows / cells "
+        "(untrue value pinned by the gettext fixtures) are outside the domain; the include +1 offset is an open finding.",
+        "exhaustive wrapper-shape enumeration + Hypothesis trees; ground-truth-by-construction oracle",
+    ),
     "C05": (
         "Every sequence of heading levels 1-6 up to length 5/6 (exhaustive) and Hypothesis sequences up to length 40 "
         "with filler blocks, nested headings in quotes / lists / admonitions and heading-offset includes, against a "
